@@ -24,6 +24,7 @@ type Clause struct {
 	Src    string
 	Expr   ast.Expr
 	Panics bool // requires whose violation is a panic of the callee (nopanic obligation at call sites)
+	Ground bool // prove from the ground (quantifier-free) part of the assumptions only
 	Known  string
 }
 
@@ -54,10 +55,12 @@ type Contract struct {
 	Uses      []string
 	Vars      []LemmaVar // lemma only
 	IsLemma   bool
+	Hints     []*Clause // intermediate facts at the return sites (may mention named locals); proved, then assumed
 	Canary    []*Clause // deliberately false ensures: must be refuted
 	EffectFree bool
 	Assumes   []string // free text assumptions recorded in evidence
 	ArgNames  []string // explicit parameter names for prelude contracts
+	Opaque    []string // spec functions whose definitions are hidden (declared, not defined) in this function's VCs
 	used      bool
 }
 
@@ -72,7 +75,7 @@ type LemmaVar struct {
 	Sort string
 }
 
-var labelRe = regexp.MustCompile(`^\[([A-Za-z0-9_\-:/.]+)((?:\s+@C[0-9]+)*)(\s+panics)?\]\s*`)
+var labelRe = regexp.MustCompile(`^\[([A-Za-z0-9_\-:/.]+)((?:\s+@C[0-9]+)*)(\s+panics|\s+ground)?\]\s*`)
 
 // preprocess turns "a ==> b" (lowest precedence, right associative) into
 // implies(a, b) so that the rest is a plain Go expression.
@@ -210,6 +213,7 @@ func parseClause(kind, rest string) (*Clause, error) {
 			c.Props = append(c.Props, strings.TrimPrefix(p, "@"))
 		}
 		c.Panics = strings.TrimSpace(m[3]) == "panics"
+		c.Ground = strings.TrimSpace(m[3]) == "ground"
 		rest = rest[len(m[0]):]
 	}
 	c.Src = strings.TrimSpace(rest)
@@ -302,6 +306,15 @@ func parseContractFile(path string, pkgPath string) ([]*Contract, error) {
 				c.Label = fmt.Sprintf("post%d", len(cur.Ensures))
 			}
 			cur.Ensures = append(cur.Ensures, c)
+		case "hint":
+			c, err := parseClause("hint", rest)
+			if err != nil {
+				return nil, fail(err)
+			}
+			if c.Label == "" {
+				c.Label = fmt.Sprintf("hint%d", len(cur.Hints))
+			}
+			cur.Hints = append(cur.Hints, c)
 		case "canary":
 			c, err := parseClause("canary", rest)
 			if err != nil {
@@ -391,6 +404,8 @@ func parseContractFile(path string, pkgPath string) ([]*Contract, error) {
 			cur.Overflow = true
 		case "uses":
 			cur.Uses = append(cur.Uses, strings.Fields(rest)...)
+		case "opaque":
+			cur.Opaque = append(cur.Opaque, strings.Fields(rest)...)
 		case "args":
 			cur.ArgNames = strings.Fields(rest)
 		case "assumes":
